@@ -21,11 +21,12 @@ existing model: the state components (`applyComps`, Model/Resets.lean), `MoveAct
 done components (`Done.getDone`, `Done.getAllDone`), and the pieces of the smart simulation
 (`anyLazy`, `mergeObs`, `dictSet` of Model/Smart.lean).  Only the glue is new.
 
-**Not modelled: `ReachTheTargetSim`** (`reach_the_target.py`).  It has two hand-written done
-components (`TargetDone`, `OnlyAgentLeftDone`) and its `step` takes a runner off the grid and sets
-`agent.active = False` while its health stays positive, which breaks the clause "active iff health
-positive" of `WInv`: none of the C03 theorems (all stated for `WInv`) applies to its worlds.  It stays
-a runtime monitor (C03 judges it by `WInvWeak`).
+**`ReachTheTargetSim`** (`reach_the_target.py`) is modelled in `Model/Reach.lean` on top of this file.  It
+has hand-written done components (`TargetDone`, `OnlyAgentLeftDone`) and its `step` takes a runner off the
+grid and sets `agent.active = False` while its health stays positive, which breaks the clause "active iff
+health positive" of `WInv`: none of the C03 theorems (all stated for `WInv`) applies to the worlds its steps
+produce; they are judged by `WInvWeak` at run time (see `Props/Reach.lean` for what is proved).
+`MultiCorridor` and `MultiAgentGridSim`: `Model/Corridor.lean`, `Model/MultiGrid.lean`.
 
 ## State
 
